@@ -124,7 +124,8 @@ Section Chain.
   Qed.
 
   Variable fetch : list line -> Z -> option Z -> option Z -> res (list line).
-  Hypothesis fetch_ok : forall g q a b, tabix_okb g = true -> fetch g q a b = fetch_spec g q a b.
+  Hypothesis fetch_ok : forall g q a b, tabix_accepts g = true -> fetch g q a b = fetch_spec g q a b.
+  Hypothesis R : range_okb f = true.
 
   (* the property's second sentence, end to end *)
   Theorem query_on_index_output r ids :
@@ -139,14 +140,14 @@ Section Chain.
     intros Hab Hc.
     assert (Hc' : In (r_contig r) (contigs out)).
     { rewrite contigs_hrs in *. eapply Permutation_in; [apply Permutation_map, out_hrs_perm|exact Hc]. }
-    destruct (indexed_region_eq_filter fetch fetch_ok out (sorted_output_tabix_ok f W) out_wf
-                (to_str_noX sd) r ids Hab Hc') as [full_out [E1 E2]].
+    destruct (indexed_region_eq_filter fetch fetch_ok out (sorted_output_accepted f W R) out_wf
+                r ids Hab Hc' (fun t s e x Hin => to_str_noX sd _ Hin)) as [full_out [E1 E2]].
     rewrite (read_plain_closed out out_wf) in E1. inversion E1 as [E1']. clear E1.
     exists (map (entry_of V) (hrs f)), (filter (selected (Some r) ids) full_out),
            (filter (selected (Some r) ids) (map (entry_of (vrecs out)) (hrs f))).
     split; [|split; [|split; [|split]]].
     - unfold index_output. rewrite (read_plain_closed f W). cbn [bind].
-      rewrite (sorted_output_tabix_ok f W). reflexivity.
+      rewrite (sorted_output_accepted f W R). reflexivity.
     - apply read_plain_closed, W.
     - exact E2.
     - rewrite <- E1'. apply Permutation_filter, Permutation_map. symmetry. apply out_hrs_perm.
